@@ -116,6 +116,20 @@ theorem step_main (n : Node) (e : Ev) :
         · split
           · exact ⟨rfl, .same rfl⟩
           · exact ⟨rfl, .promoted hi li hk rfl⟩
+  | block ids => exact ⟨rfl, .same rfl⟩
+  | cmcheck li i o =>
+    simp only [Node.step, Node.trafficCheck]
+    split
+    · exact ⟨rfl, .same rfl⟩
+    · rename_i hi hk
+      split
+      · split <;> exact ⟨rfl, .deleted hi rfl⟩
+      · split <;> exact ⟨rfl, .deleted hi rfl⟩
+      · exact ⟨rfl, .promoted hi li hk rfl⟩
+      · split <;> exact ⟨rfl, .same rfl⟩
+      · exact ⟨rfl, .same rfl⟩
+      · exact ⟨rfl, .same rfl⟩
+      · exact ⟨rfl, .same rfl⟩
 
 /-- completed results carried by a history -/
 def comps (evs : List Ev) : List Completed := evs.filterMap completionOf
